@@ -136,7 +136,7 @@ def jobs(tier, seed):
     return out
 
 
-def exact_containment(L, R):
+def exact_containment(L, R, mode="sym"):
     """Formula over the constants: every point of L satisfies every row of R exactly."""
     names = O.names_of(L, R)
     A, b = O.matrix_of(L, names)
@@ -144,6 +144,12 @@ def exact_containment(L, R):
         # L is the whole space: contained only if R has no rows (rows mention >= 1 variable)
         return z3.BoolVal(len(O.rows_of(R)) == 0)
     feas = lp.feasible_formula(A, b)
+    empty = z3.Not(feas)
+    if mode == "real":
+        # the float code decides emptiness of L with HiGHS's tolerances: a left side that is empty or non-empty only
+        # by less than 1e-6 (decimal witnesses produce such sets) is outside what a False answer can be blamed for
+        solid, empty = lp.feasibility_claims("real", A, b)
+        feas = solid
     conj = []
     for coefs, c in O.rows_of(R):
         obj = [coefs.get(n, 0) for n in names]
@@ -152,7 +158,7 @@ def exact_containment(L, R):
             conj.append(z3.BoolVal(False))
         else:
             conj.append(z3.Or(*[u <= O.E.toz(c) for u in uppers]))
-    return z3.Or(z3.Not(feas), z3.And(*conj) if conj else z3.BoolVal(True))
+    return z3.Or(empty, z3.And(feas, *conj))
 
 
 def check_answer(ctx, ans, pairs, label):
@@ -162,7 +168,7 @@ def check_answer(ctx, ans, pairs, label):
             names = O.names_of(L, R)
             ctx.obligation(f"{label}-true-implies-contained", z3.And(O.box(names), O.holds(L), O.broken(R)))
     else:
-        ctx.obligation(f"{label}-false-implies-not-exactly-contained", z3.And(*[exact_containment(L, R) for L, R in pairs]))
+        ctx.obligation(f"{label}-false-implies-not-exactly-contained", z3.And(*[exact_containment(L, R, ctx.mode) for L, R in pairs]))
 
 
 def run(ctx, job):
